@@ -609,6 +609,16 @@ def lf8(F, R):
         ok = has_sub(first, lambda q: q[:2] == ("arg", 2)) and not has_sub(first, lambda q: q[0] == "call" and q[1] and q[1].endswith("Option::take"))
         ok = ok and has_sub(second, lambda q: q[0] == "call" and q[1] and q[1].endswith("Option::take") and has_sub(q, lambda z: z[0] == "place" and last_field(z) == "unpaired_surrogate"))
     R.require(ok, fn, "carry-after-fragment", "decode_utf16 must run over chain(this fragment's units, the unit carried over from the previous call taken with Option::take); got %s" % tstr(src)[:200], fn.loc(dec[0][0]))
+    # a fragment ends at its first 0x0000 unit and nowhere else (0xFFFF is an ordinary code unit before the terminator)
+    pos = [(b, t) for b, t in fn.calls() if (callee_of(t) or "").endswith("Iterator::position")]
+    okt = False
+    if len(pos) == 1:
+        cl = strip_refs(fn.term_of_operand(pos[0][1]["args"][1], pos[0][0]))
+        if cl[0] == "agg" and cl[1] == "Closure":
+            c = F.closure(cl[2])
+            rets = [c.term_of_rvalue(d[3], d[1]) if d[0] == "assign" else c.call_term(d[2], d[1]) for d in c.defs().get(0, [])]
+            okt = len(rets) == 1 and rets[0][0] == "bin" and rets[0][1] == "Eq" and rets[0][3][:2] == ("c", 0) and strip_refs(rets[0][2])[0] in ("place", "arg") and not [1 for bb in c.live_blocks() if c.term(bb)["k"] == "SwitchInt"]
+    R.require(okt, fn, "terminator", "the fragment must be cut at the first unit equal to 0x0000 and at nothing else", fn.loc(pos[0][0]) if pos else fn.loc(0))
     # the decode loop
     loops = [(h, body, backs) for (h, body, backs) in fn.loops() if any(fn.term(b)["k"] == "Call" and (callee_of(fn.term(b)) or "").endswith("Iterator::next") and "DecodeUtf16" in fn.term(b).get("callee_full", "") for b in body)]
     R.require(len(loops) == 1, fn, "decode-loop", "expected one loop over the decoder", fn.loc(0))
@@ -774,3 +784,158 @@ def sk6(F, R):
         R.require(len(sk) == 1, rd, "seek-site", "expected one position update per trip in read()", rd.loc(loop[0]))
         for b in sk:
             R.require(_in_iteration_after(rd, b, g_try_ok("BlockCache::read"), loop), rd, "position-after-read", "read() moves the file position before the data block has been read successfully: a read that fails with a device error has already consumed bytes it never delivered", rd.loc(b))
+
+
+@rule("TR1", ["C05", "C10", "C03", "C01"], floor=3,
+      doc="truncate-on-open keeps the file's first cluster and keeps referring to it: open_file_in_dir never stores into an entry's first-cluster field and never calls free_cluster_chain (truncate_cluster_chain frees everything *behind* the first cluster, which stays allocated and stays named by the entry); FileInfo::update_length changes the size only; a DirEntry's first cluster is only ever assigned the result of alloc_cluster (a cluster-less file's first write, make_dir)")
+def tr1(F, R):
+    fn = F.fn(VM + "::open_file_in_dir")
+    st = [(b, i) for b, i, s in fn.stmts() if s["k"] == "Assign" and [e[2] for e in s["p"]["proj"] if e[0] == "field"][-2:] == ["entry", "cluster"]]
+    st += [(b, i) for b, i, s in fn.stmts() if s["k"] == "Assign" and [e[2] for e in s["p"]["proj"] if e[0] == "field"][-1:] == ["cluster"] and "DirEntry" in fn.locals[s["p"]["l"]]["ty"] + "".join(str(e) for e in s["p"]["proj"])]
+    R.require(not st, fn, "keeps-first-cluster", "open_file_in_dir rewrites the entry's first cluster: a truncated file keeps its first cluster allocated, so dropping the reference leaks it (and freeing it before the entry is rewritten leaves a live entry on a free cluster)", fn.loc(st[0][0], st[0][1]) if st else fn.loc(0))
+    fc = [b for b, t in fn.calls() if call_matches(t, ("FatVolume::free_cluster_chain",))]
+    R.require(not fc, fn, "no-free-on-open", "open_file_in_dir calls free_cluster_chain: truncation must go through truncate_cluster_chain, which terminates the kept head before freeing the tail", fn.loc(fc[0]) if fc else fn.loc(0))
+    # writers of a DirEntry's cluster field, crate-wide: only ever the result of an allocation
+    from .dataflow import roots as _roots
+    bad = []
+    n = 0
+    for g in F.fns:
+        if g.npath.startswith(("fat::test", "volume_mgr::tests")):
+            continue
+        for b, i, s in g.stmts():
+            if s["k"] == "Assign" and s["p"]["proj"]:
+                flds = [e[2] for e in s["p"]["proj"] if e[0] == "field"]
+                if flds[-1:] == ["cluster"] and ("entry" in flds or "DirEntry" in g.locals[s["p"]["l"]]["ty"]):
+                    n += 1
+                    rs = _roots(g, g.term_of_rvalue(s["rv"], b), stop=lambda n_: path_matches(n_, "FatVolume::alloc_cluster"))
+                    if not (rs and all(r[0] == "call" and r[1] and path_matches(r[1], "FatVolume::alloc_cluster") for r in rs)):
+                        bad.append("%s at %s" % (g.npath.split("::")[-1], g.loc(b, i)))
+    R.require(n >= 2 and not bad, None, "cluster-writers", "an existing entry's first cluster may only be set to a freshly allocated cluster; other stores: %s" % bad)
+
+
+@rule("ML1", ["C05"], floor=2,
+      doc="make_dir cannot run out of space after it has taken a cluster: every step that may legitimately fail for lack of space (finding / growing a slot in the parent: write_new_directory_entry; the allocation itself) precedes the point at which the new directory's cluster is allocated, so a refused mkdir (full FAT16 root, last free cluster needed for the parent) leaves no cluster marked in use without an owner")
+def ml1(F, R):
+    fn = F.fn(FATVOL + "::make_dir")
+    allocs = [b for b, t in fn.calls() if call_matches(t, ("FatVolume::alloc_cluster",))]
+    R.require(len(allocs) == 1, fn, "alloc-site", "expected one alloc_cluster call in make_dir, found %d" % len(allocs), fn.loc(0))
+    for a in allocs:
+        later = [b for b, t in fn.calls() if b in fn.reach_after(a) and b != a and call_matches(t, ("FatVolume::write_new_directory_entry", "FatVolume::alloc_cluster"))]
+        if later:
+            # alternative discipline: allocate first but give the cluster back on every failing exit
+            frees = [b for b, t in fn.calls() if call_matches(t, ("FatVolume::free_cluster_chain", "FatVolume::update_fat", "FatVolume::truncate_cluster_chain"))]
+            exits = [b for b, t in fn.calls() if (callee_of(t) or "").endswith("FromResidual::from_residual") and b in fn.reach_after(a)]
+            exits += [x[0] for x in err_returns(fn) if x[0] in fn.reach_after(a)]
+            if frees and exits and not any(e in fn.reach_after(a, cut_blocks=frees) for e in exits):
+                R.ok(fn, "space-steps-first", "cluster allocated first, released on every failing exit")
+                continue
+        R.require(not later, fn, "space-steps-first", "make_dir takes the new directory's cluster before the parent entry is secured: when the parent cannot take another entry (NotEnoughSpace) the cluster stays marked in use with no owner", fn.loc(later[0]) if later else fn.loc(a))
+
+
+NC_TABLE16 = [(0x0000, ("ok", 0)), (0x0001, ("ok", 1)), (0x0002, ("ok", 2)), (0x1234, ("ok", 0x1234)), (0xFFEF, ("ok", 0xFFEF)), (0xFFF0, ("ok", 0xFFF0)), (0xFFF5, ("ok", 0xFFF5)),
+              (0xFFF6, ("ok", 0xFFF6)), (0xFFF7, ("err", "BadCluster")), (0xFFF8, ("err", "EndOfFile")), (0xFFFE, ("err", "EndOfFile")), (0xFFFF, ("err", "EndOfFile"))]
+NC_TABLE32 = [(0x00000000, ("err", "UnterminatedFatChain")), (0x00000001, ("err", "EndOfFile")), (0x00000002, ("ok", 2)), (0x00010000, ("ok", 0x10000)), (0x0FFFFFEF, ("ok", 0x0FFFFFEF)),
+              (0x0FFFFFF6, ("ok", 0x0FFFFFF6)), (0x0FFFFFF7, ("err", "BadCluster")), (0x0FFFFFF8, ("err", "EndOfFile")), (0x0FFFFFFF, ("err", "EndOfFile")),
+              (0x10000002, ("ok", 2)), (0xF0012345, ("ok", 0x12345)), (0xF0000000, ("err", "UnterminatedFatChain")), (0xFFFFFFF8, ("err", "EndOfFile")), (0xA0000001, ("err", "EndOfFile"))]
+
+
+@rule("NC1", ["C03", "C05", "C06", "C01"], floor=26,
+      doc="next_cluster classifies a FAT entry as the specification says (as this crate has always done): FAT16 0xFFF7 bad, 0xFFF8..=0xFFFF end of chain, every other value - including 0xFFF0..0xFFF6, which are valid cluster numbers on a maximal volume - is the next cluster; FAT32 looks at the low 28 bits only, 0 unterminated, 1 and 0x0FFFFFF8.. end, 0x0FFFFFF7 bad, otherwise the next cluster is the *masked* value; decided by evaluating the classification code on the boundary values of every class, plus a check that no other constant takes part in the classification")
+def nc1(F, R):
+    from .absint import Interp, State, Undecided
+    from .absval import const, is_agg, int_const, is_int
+    fn = F.fn(FATVOL + "::next_cluster")
+    arms = fat_arms(fn)
+    errname = F.variants("Error") if False else None
+    for arm, rd, width, table, consts in (("Fat16", "read_u16", 16, NC_TABLE16, {0xFFF7, 0xFFF8, 0xFFFF}), ("Fat32", "read_u32", 32, NC_TABLE32, {0, 1, 0x0FFFFFF7, 0x0FFFFFF8, 0x0FFFFFFF, 0x0FFFFFFF})):
+        sites = [(b, t) for b, t in fn.calls() if b in arms[arm] and (callee_of(t) or "").endswith(rd)]
+        if len(sites) != 1:
+            R.bad(fn, arm + ":read", "expected one %s of the FAT entry in the %s arm" % (rd, arm), fn.loc(0), kind="anchor-missing")
+            continue
+        b0, t0 = sites[0]
+        dest = t0["dest"]["l"]
+        # constants the entry is compared with
+        seen = set()
+        for (gb, gi, g) in all_guards(fn):
+            if gb not in arms[arm] or not has_sub(g.term, lambda q: q[0] == "call" and q[1] and q[1].endswith(rd)):
+                continue
+            if g.kind == "value":
+                seen.add(g.value)
+            elif g.kind == "notvalues":
+                seen |= set(g.others)
+            elif g.kind == "bool" and g.term[0] == "cmp":
+                for x in (g.term[2], g.term[3]):
+                    if x[0] == "c" and isinstance(x[1], int):
+                        seen.add(x[1])
+        R.require(seen <= consts and (seen >= (consts - {1}) if arm == "Fat32" else seen == consts), fn, arm + ":constants", "the %s classification compares the entry with %s, the specification's special values are %s" % (arm, sorted(hex(x) for x in seen), sorted(hex(x) for x in consts)), fn.loc(b0))
+        for (val, want) in table:
+            I = Interp(F, mode="iv", max_paths=200)
+            st = State()
+            try:
+                outs = I.run(fn, [], st, 0, start=t0["target"], preset={dest: const(val, width)})
+            except Undecided as e:
+                R.bad(fn, "%s:%#x" % (arm, val), "cannot evaluate the classification of entry %#x: %s" % (val, e), fn.loc(b0))
+                continue
+            got = set()
+            for rv, s2 in outs:
+                got.add(_nc_outcome(F, rv))
+            R.require(got == {want}, fn, "%s:%#x" % (arm, val), "%s entry %#x is classified as %s, the specification says %s" % (arm, val, sorted(got), want), fn.loc(b0))
+
+
+def _nc_outcome(F, rv):
+    from .absval import is_agg, int_const, is_int
+    try:
+        if is_agg(rv) and rv[3] is not None:
+            names = ["Ok", "Err"]
+            kind = names[rv[3]] if rv[3] < 2 else "?"
+            if kind == "Ok":
+                inner = rv[4][0]
+                while is_agg(inner):
+                    inner = inner[4][0]
+                return ("ok", int_const(inner) if is_int(inner) else None)
+            inner = rv[4][0]
+            if is_agg(inner) and inner[3] is not None:
+                a = F.adts.get(inner[2]) or next((v for k, v in F.adts.items() if k == inner[2] or k.endswith("::" + str(inner[2]))), None)
+                return ("err", a["variants"][inner[3]]["name"] if a else inner[3])
+    except Exception as e:  # noqa
+        return ("?", str(e))
+    return ("?", repr(rv)[:60])
+
+
+@rule("LS6", ["C06", "C17"], floor=4,
+      doc="the long-name-aware listing reports every short entry exactly once: in both per-entry closures of iterate_dir_lfn, whenever the slot is not a long-name fragment (lfn_contents() is None) the user's callback is invoked on every path - with the long name only under Complete && checksum match, with None otherwise - and never for a fragment")
+def ls6(F, R):
+    outer = F.fn(FATVOL + "::iterate_dir_lfn")
+    cls = F.closures_of(outer)
+    cls = [c for c in cls if any((callee_of(t) or "").endswith("lfn_contents") for b, t in c.calls())]
+    R.require(len(cls) == 2, outer, "closures", "expected one per-entry closure per FAT type in iterate_dir_lfn, found %d" % len(cls), outer.loc(0))
+    for c in cls:
+        key = c.npath.split("::")[-1]
+        # calls of the user's callback: call through the captured FnMut (callee is a type parameter / call_mut)
+        cbs = [b for b, t in c.calls() if (callee_of(t) or "").endswith(("FnMut::call_mut", "Fn::call", "FnOnce::call_once"))]
+        lc = [b for b, t in c.calls() if (callee_of(t) or "").endswith("lfn_contents")]
+        R.require(len(lc) == 1 and len(cbs) >= 1, c, key + ":shape", "closure must test lfn_contents() once and call the user's callback", c.loc(0))
+        if len(lc) != 1 or not cbs:
+            continue
+        none_edges = [(gb, gi) for (gb, gi, g) in all_guards(c) if g.kind == "variant" and g.variant == "None" and has_sub(g.term, lambda q: q[0] == "call" and q[1] and q[1].endswith("lfn_contents"))]
+        some_edges = [(gb, gi) for (gb, gi, g) in all_guards(c) if g.kind == "variant" and g.variant == "Some" and has_sub(g.term, lambda q: q[0] == "call" and q[1] and q[1].endswith("lfn_contents"))]
+        R.require(bool(none_edges) and bool(some_edges), c, key + ":fragment-test", "no match on lfn_contents()", c.loc(lc[0]))
+        rets = c.return_blocks()
+        # (1) short entry => callback on every path to the return
+        bad1 = False
+        for (gb, gi) in none_edges:
+            tgt = c.succ(gb)[gi][0]
+            free = c.reach([tgt], cut_blocks=cbs)
+            if any(r in free for r in rets):
+                bad1 = True
+        R.require(not bad1, c, key + ":short-entry-always-reported", "a short (non-fragment) entry can pass through the long-name listing without the callback being called: the entry disappears from iterate_dir_lfn although iterate_dir lists it", c.loc(lc[0]))
+        # (2) at most once per entry: no callback reachable after a callback
+        twice = [b for b in cbs if any(b2 in c.reach_after(b) for b2 in cbs)]
+        R.require(not twice, c, key + ":once", "the callback can be invoked twice for one entry", c.loc(cbs[0]))
+        # (3) never for a fragment
+        frag = False
+        for (gb, gi) in some_edges:
+            tgt = c.succ(gb)[gi][0]
+            if any(b in c.reach([tgt]) for b in cbs):
+                frag = True
+        R.require(not frag, c, key + ":no-fragment-reported", "the callback is reachable for a long-name fragment", c.loc(lc[0]))
